@@ -123,6 +123,15 @@ def check(run):
         one_case(run, specs, np.array(pts), q, tuple("T=%g" % T for T in ts))
         run.count("boys ladder case")
         k += 1
+    # nearly coincident centres (and a charge nearly on a centre)
+    from checks.common import near_cases, near_pair
+    for la, lb, sep, far in near_cases(run, 3)[:: (3 if quick else 1)]:
+        s1, s2 = near_pair(rng, la, lb, sep, far)
+        pts, q, kinds = place_charges(rng, [s1, s2], 2)
+        pts = np.vstack([pts, np.array(s1.center) + np.array([sep, -0.5 * sep, 0.25 * sep])])
+        q = np.append(q, 1.5)
+        one_case(run, [s1, s2], pts, q, tuple(kinds) + ("near-centre",))
+        run.count("nearly coincident centres")
     for _ in range(6 if quick else 60):
         n = rng.randint(1, 4)
         specs = random_basis(rng, n, n, lmax=3 if quick else (5 if n <= 2 else 3))
